@@ -9,7 +9,8 @@ LEVEL_TEXT = ('Held on the executions observed: every termination mode (all buil
               'builtins/modules) x entry point (run, call, evaluate, student-file import, instructor code) x tracer style x '
               'threaded/direct x history position is executed for real; the monitor checks that the call returned, the recorded '
               'exception class equals the CPython reference, exactly one new runtime feedback names it, and its line is the '
-              'reference student line. Plus failing random CS1 programs.')
+              'reference student line. Plus failing random CS1 programs. Environments of a cell: the formatter of every platform, a report the '
+              'grader keeps to herself (the default one holds another submission), a builtin allowed earlier and blocked again.')
 LEVEL_NOTE = ('Reference = exec of the same files in the same interpreter. Blocked features have no CPython counterpart: only '
               'internal consistency is required there. os._exit, signals, memory exhaustion and non-Exception BaseException '
               'subclasses other than SystemExit are outside the statement. Compile-time SyntaxError locations are not judged '
